@@ -204,12 +204,14 @@ SINGLE = ['un', 'kink', 'special', 'unp', 'bin', 'bcast', 'binc', 'pow', 'neg', 
 
 
 @st.composite
-def pairing_cases(draw, tier, first=None, families=None, max_len=8, min_len=1, allow_ones=False):
+def pairing_cases(draw, tier, first=None, families=None, max_len=8, min_len=1, allow_ones=False, Dforce=None):
     allow_bcast = not KF.is_open(OPEN_SET_BCAST)
     pr = draw(PG.programs(n_inputs=(1, 2), max_len=max_len, min_len=min_len, families=families, out='any', K=4,
                           allow_set_broadcast=allow_bcast, first=first, allow_ones=allow_ones))
     Dmax = 4 if tier == 'quick' else 5
     D = draw(st.sampled_from([3, 2, 4, 3, 2] + ([5, 5] if Dmax >= 5 else []) + [1]))
+    if Dforce is not None:
+        D = Dforce
     P = draw(st.sampled_from([2, 1, 2, 3]))
     case = dict(pr)
     case['D'], case['P'] = D, P
@@ -255,6 +257,10 @@ def buckets(tier):
             strat = (lambda fam=fam: pairing_cases(tier, first=fam, families=CHEAP_TAIL, max_len=3))
         bl.append(Bucket('nopullback:' + fam, strat, prop_no_pullback, {'quick': 15, 'thorough': 200},
                          nontrivial=_nontrivial, classes=_classes))
+    # eig: algopy supports first-order polynomials only (assert D <= 2) and the forward reference needs 2D coefficients: D = 1
+    bl.append(Bucket('op:eig', (lambda: pairing_cases(tier, first='eig', families=CHEAP_TAIL, max_len=3, Dforce=1)), prop_pairing,
+                     {'quick': 30, 'thorough': 300}, nontrivial=(lambda case: 'nonlinear' in PG.features(case) and case['P'] >= 2),
+                     classes=_classes))
     bl.append(Bucket('compose', (lambda: pairing_cases(tier, max_len=10, min_len=2)), prop_pairing,
                      {'quick': 30, 'thorough': 1200}, nontrivial=_nontrivial, classes=_classes,
                      shards={'quick': 12, 'thorough': 16}, weight=4.0))
